@@ -136,6 +136,9 @@ def cases(tier, seed):
             ksc = rscript(rnd, rnd.choice([0, 0, 1, 2, 3, 5]), ksyms)
             slen = rnd.choice([0, 1, 3, 6, 8])
             n = rnd.choice([0, 1, 2, slen, slen + 1, 5])
+            if rnd.random() < 0.15:
+                # "no limit": counts at the top of the size_t range (a limit added to a read mark must not wrap)
+                n = rnd.choice([2 ** 64 - 1, 2 ** 64 - 2, 2 ** 64 - 4, 2 ** 63, 2 ** 63 - 1])
             asize = rnd.choice([1, 2, 4, 8])
             aused = rnd.randint(0, asize)
             aoff = rnd.randint(0, aused)
